@@ -404,10 +404,10 @@ pub fn io<const N: usize>(ctx: &mut Ctx) {
                 // enumerate sequences of length `depth` (first op index shards the space)
                 let total = ops.len().pow(depth as u32);
                 for first in 0..ops.len() {
-                    let key = hash64(&format!("io|{}|{}|{}|{}|{:?}", N, route, start, len, ops[first]));
-                    if !ctx.mine(key) {
+                    if !ctx.mine_next() {
                         continue;
                     }
+                    let key = hash64(&format!("io|{}|{}|{}|{}|{:?}", N, route, start, len, ops[first]));
                     let per_first = total / ops.len();
                     for rest in 0..per_first {
                         let mut seq = vec![ops[first]];
